@@ -49,24 +49,25 @@ func init() { Registry["C03"] = runC03 }
 // ---------------------------------------------------------------------------
 
 type c34Env struct {
-	c             *Ctx
-	tree          *SrcTree
-	td            string         // /repo/internal/sign/testdata
-	exact         map[int]string // files of exactly n bytes
-	bigRand       string         // larger than every compressor block in the quick tier (300 KiB, random)
-	bigZero       string         // 300 KiB of zeros
-	hugeRand      string         // thorough: 3 MiB random
-	hugeZero      string         // thorough: 3 MiB zeros
-	hugeOdd       string         // thorough: 1 MiB + 1 byte (one byte past the pgzip block)
-	small         []string       // many small files
-	frac          []string       // source files whose modification time has a sub-second part (.7, .3, .5 s)
-	scripts       map[string]string
-	changelog     string
-	longChangelog string
-	dpkgDeb       string // path of dpkg-deb or ""
-	xz            string // path of xz or ""
-	seq           atomic.Int64
-	segCap        int // apk segments larger than this are not sent through the Lean byte-list model
+	c              *Ctx
+	tree           *SrcTree
+	td             string         // /repo/internal/sign/testdata
+	exact          map[int]string // files of exactly n bytes
+	bigRand        string         // larger than every compressor block in the quick tier (300 KiB, random)
+	bigZero        string         // 300 KiB of zeros
+	hugeRand       string         // thorough: 3 MiB random
+	hugeZero       string         // thorough: 3 MiB zeros
+	hugeOdd        string         // thorough: 1 MiB + 1 byte (one byte past the pgzip block)
+	small          []string       // many small files
+	frac           []string       // source files whose modification time has a sub-second part (.7, .3, .5 s)
+	scripts        map[string]string
+	changelog      string
+	emptyChangelog string
+	longChangelog  string
+	dpkgDeb        string // path of dpkg-deb or ""
+	xz             string // path of xz or ""
+	seq            atomic.Int64
+	segCap         int // apk segments larger than this are not sent through the Lean byte-list model
 }
 
 const c34Changelog = `---
@@ -178,6 +179,10 @@ func c34Setup(c *Ctx) (*c34Env, error) {
 	if e.longChangelog, err = write("changelog-long.yaml", []byte(long.String())); err != nil {
 		return nil, err
 	}
+	// a changelog file that exists and has no entry yet (a fresh `chglog init`)
+	if e.emptyChangelog, err = write("changelog-empty.yaml", []byte("[]\n")); err != nil {
+		return nil, err
+	}
 	seen := map[string]bool{}
 	for _, f := range Formats {
 		for _, sel := range scriptSelectors[f] {
@@ -258,6 +263,10 @@ func (e *c34Env) boundaryPayloads() []c34Payload {
 			{Dst: "/opt/日本語/", Type: "dir"}, {Src: "/opt/sp ace/t o o l", Dst: "/opt/ünï cödé/lnk →", Type: "symlink"}}},
 		{"mtree-special-characters", []wire.Content{c34File(j("bin/tool"), "/opt/sh#arp/a\"quote"), c34File(j("etc/app.conf"), "/opt/back\\slash/t\tab"),
 			{Dst: "/opt/#first/", Type: "dir"}, {Src: "../t\"a r#get\\x", Dst: "/opt/sh#arp/l\x7fnk", Type: "symlink"}}},
+		// two entries for one path, the first spelled without the leading slash (and: a directory where a file already is):
+		// planning refuses this list; a package that gets built from it carries a member name twice
+		{"same-path-relative-and-absolute", []wire.Content{c34File(j("bin/tool"), "usr/share/demo/data.txt"), c34File(j("etc/app.conf"), "/usr/share/demo/data.txt"), c34File(j("bin/tool"), "/usr/bin/tool")}},
+		{"same-path-relative-file-and-directory", []wire.Content{c34File(j("bin/tool"), "usr/share/demo/thing"), {Dst: "/usr/share/demo/thing", Type: "dir"}, c34File(j("bin/tool"), "/usr/bin/tool")}},
 		{"setuid-owner-mtime", []wire.Content{
 			{Src: j("bin/suid"), Dst: "/usr/bin/suid", Info: &wire.FileInfo{Mode: 0o4755, Owner: "root", Group: "wheel", MTime: 1500000001}},
 			{Src: j("bin/tool"), Dst: "/usr/bin/sgid", Info: &wire.FileInfo{Mode: 0o2755, Owner: "daemon", Group: "app", MTime: wire.ZeroTime}},
@@ -353,6 +362,10 @@ func (e *c34Env) withScripts(s *PkgSpec, sels []string) *PkgSpec {
 
 func (e *c34Env) withLongChangelog(s *PkgSpec) *PkgSpec {
 	return c10derive(s, map[string]any{"changelog": "60 releases, two notes each (changelog-long.yaml)"}, func(info *nfpm.Info) { info.Changelog = e.longChangelog })
+}
+
+func (e *c34Env) withEmptyChangelog(s *PkgSpec) *PkgSpec {
+	return c10derive(s, map[string]any{"changelog": "a changelog file without entries: []"}, func(info *nfpm.Info) { info.Changelog = e.emptyChangelog })
 }
 
 func (e *c34Env) withChangelog(s *PkgSpec) *PkgSpec {
@@ -509,7 +522,7 @@ func (e *c34Env) boundaryCases() []c34Case {
 				}
 				for _, comp := range comps {
 					cs := c34Case{S: c34WithCompression(base, comp, comp), Format: f, Class: p.Class,
-						Label: fmt.Sprintf("boundary/%s/%s%s", p.Class, comp, mtl), MustBuild: true}
+						Label: fmt.Sprintf("boundary/%s/%s%s", p.Class, comp, mtl), MustBuild: !strings.HasPrefix(p.Class, "same-path-")}
 					if f == "archlinux" && mt == wire.ZeroTime {
 						// the clock is varied explicitly in the extras family and freely in the random family
 						cs.Clock = "low"
@@ -543,10 +556,10 @@ func (e *c34Env) compressionCases(r *rng.R) []c34Case {
 			}
 			base := c34Base(p, mt)
 			for _, comp := range debCompressions {
-				out = append(out, c34Case{S: c34WithCompression(base, comp, ""), Format: "deb", Class: p.Class, Label: "compression/deb/" + comp + "/" + p.Class, MustBuild: true})
+				out = append(out, c34Case{S: c34WithCompression(base, comp, ""), Format: "deb", Class: p.Class, Label: "compression/deb/" + comp + "/" + p.Class, MustBuild: !strings.HasPrefix(p.Class, "same-path-")})
 			}
 			for _, comp := range c34RpmCompressions {
-				out = append(out, c34Case{S: c34WithCompression(base, "", comp), Format: "rpm", Class: p.Class, Label: "compression/rpm/" + comp + "/" + p.Class, MustBuild: true})
+				out = append(out, c34Case{S: c34WithCompression(base, "", comp), Format: "rpm", Class: p.Class, Label: "compression/rpm/" + comp + "/" + p.Class, MustBuild: !strings.HasPrefix(p.Class, "same-path-")})
 			}
 		}
 	}
@@ -643,7 +656,7 @@ func (e *c34Env) extrasCases(r *rng.R) []c34Case {
 					if len(v) > 0 {
 						s = e.withScripts(s, v)
 					}
-					cs := c34Case{S: s, Format: f, Class: p.Class, Label: fmt.Sprintf("extras/%s/%s/scripts-%d/%s", f, p.Class, vi, mtl), MustBuild: true}
+					cs := c34Case{S: s, Format: f, Class: p.Class, Label: fmt.Sprintf("extras/%s/%s/scripts-%d/%s", f, p.Class, vi, mtl), MustBuild: !strings.HasPrefix(p.Class, "same-path-")}
 					if f == "archlinux" && mt == wire.ZeroTime {
 						cs.Clock = "low"
 					}
@@ -651,7 +664,7 @@ func (e *c34Env) extrasCases(r *rng.R) []c34Case {
 				}
 				if mt == wire.ZeroTime {
 					for _, clk := range []string{"low", "high"} {
-						out = append(out, c34Case{S: base, Format: f, Class: p.Class, Label: fmt.Sprintf("extras/%s/%s/mtime-unset/clock-%s", f, p.Class, clk), MustBuild: true, Clock: clk})
+						out = append(out, c34Case{S: base, Format: f, Class: p.Class, Label: fmt.Sprintf("extras/%s/%s/mtime-unset/clock-%s", f, p.Class, clk), MustBuild: !strings.HasPrefix(p.Class, "same-path-"), Clock: clk})
 					}
 				}
 				if f == "deb" || f == "rpm" {
@@ -660,6 +673,7 @@ func (e *c34Env) extrasCases(r *rng.R) []c34Case {
 						out = append(out, c34Case{S: s, Format: f, Class: p.Class, Label: fmt.Sprintf("extras/%s/%s/changelog/%s/%s", f, p.Class, comp, mtl), MustBuild: true})
 						if comp == "" {
 							out = append(out, c34Case{S: e.withLongChangelog(base), Format: f, Class: p.Class, Label: fmt.Sprintf("extras/%s/%s/long-changelog/%s", f, p.Class, mtl), MustBuild: true})
+							out = append(out, c34Case{S: e.withEmptyChangelog(base), Format: f, Class: p.Class, Label: fmt.Sprintf("extras/%s/%s/empty-changelog/%s", f, p.Class, mtl)})
 						}
 						if f == "deb" {
 							s2 := e.withDebSign(e.withScripts(s, sels), "dpkg-sig", "", c34PGPKeys[1])
@@ -2387,8 +2401,10 @@ func (e *c34Env) apkSegmentSizeCases() []c34Case {
 }
 
 func runC03(c *Ctx) error {
-	_, err := c34Families(c, "C03", nil)
-	return err
+	if _, err := c34Families(c, "C03", nil); err != nil {
+		return err
+	}
+	return c03DpkgSigFiles(c)
 }
 
 func c34ASCII(s string) bool {
